@@ -92,7 +92,7 @@ var keyKinds = []string{KBool, KInt, KInt32, KInt64, KUint, KUint32, KUint64, KS
 func GenType(t *rapid.T, o *Opts) TypeDesc {
 	g := &tgen{t: t, o: o}
 	var d TypeDesc
-	switch pick(t, "top", 62, 8, 7, 9, 10, 4) {
+	switch pick(t, "top", 55, 8, 7, 9, 10, 4, 7) {
 	case 0:
 		d = g.structType(0)
 	case 1:
@@ -107,15 +107,51 @@ func GenType(t *rapid.T, o *Opts) TypeDesc {
 		d = named(oneOf(t, "corpus", StructNames))
 	case 4:
 		d = g.inlinedChain()
-	default:
+	case 5:
 		if o.NoImpl {
 			d = g.structType(0)
 		} else {
 			d = g.implLast()
 		}
+	default:
+		d = g.pointerChain(0)
 	}
 	g.restrictImpl(&d)
 	return d
+}
+
+// pointerChain: 1..3 pointers to an implementer (RawMessage, Msg, Custom16,
+// CustomS), a corpus struct, a reflect-made struct or a scalar. Used for the
+// top-level value (the flags inline/toplevel/wantzero travel through every
+// pointer codec of the chain) and for fields, elements and map values.
+func (g *tgen) pointerChain(depth int) TypeDesc {
+	var base TypeDesc
+	switch pick(g.t, "pcbase", 10, 5, 3, 2) {
+	case 0:
+		switch {
+		case g.o.NoImpl:
+			base = named(oneOf(g.t, "pccorpus", StructNames))
+		case g.o.NoPtrImpl:
+			g.o.excluded(g.o.ClassPtrImpl)
+			base = named(oneOf(g.t, "pccorpus", StructNames))
+		default:
+			base = g.impl()
+		}
+	case 1:
+		base = named(oneOf(g.t, "pccorpus", StructNames))
+	case 2:
+		if depth < g.o.maxDepth() {
+			base = g.structType(depth + 1)
+		} else {
+			base = g.scalar()
+		}
+	default:
+		base = g.leafType(false)
+	}
+	for n := 1 + pick(g.t, "pcdepth", 5, 3, 2); n > 0; n-- {
+		base = ptr(base)
+	}
+	return base
 }
 
 // implLast: a struct of 0..4 non-repeated fields followed by a Message /
@@ -186,7 +222,9 @@ func (g *tgen) impl() TypeDesc {
 
 // pointee: what a pointer field may point to (never a slice-kinded type).
 func (g *tgen) pointer(depth int) TypeDesc {
-	switch pick(g.t, "ptrto", 8, 8, 2, 1, 1, 1, 3) {
+	switch pick(g.t, "ptrto", 8, 8, 2, 1, 1, 1, 3, 3) {
+	case 7:
+		return g.pointerChain(depth)
 	case 6:
 		// pointer to a corpus struct: for the recursive ones the pointer codec is then requested
 		// before the struct codec, and again from inside it
@@ -215,14 +253,17 @@ func (g *tgen) pointer(depth int) TypeDesc {
 			g.o.excluded(g.o.ClassPtrImpl)
 			return ptr(g.scalar())
 		}
-		// never a pointer to a slice-kinded type (*RawMessage is outside the domain)
-		return ptr(named(oneOf(g.t, "pimpl", []string{"Msg", "Custom16", "CustomS"})))
+		// (*[]byte stays outside the domain; *RawMessage is handled by the
+		// pointer codec since 4eb59c8 / 644a5bf)
+		return ptr(g.impl())
 	}
 }
 
 // elemType: element of a repeated field or value of a map.
 func (g *tgen) elemType(depth int) TypeDesc {
-	switch pick(g.t, "elem", 10, 4, 3, 2, 5, 4, 2, 2, 2, 2) {
+	switch pick(g.t, "elem", 10, 4, 3, 2, 5, 4, 2, 2, 2, 2, 2) {
+	case 10:
+		return g.pointerChain(depth)
 	case 8:
 		return named(oneOf(g.t, "ecorpus", StructNames))
 	case 9:
@@ -524,7 +565,7 @@ func (g *tgen) restrictImpl(top *TypeDesc) {
 				*d = leaf(KBytes)
 			}
 		case KPtr:
-			if d.Elem.Impl() != "" { // pointer to []byte is not in the domain
+			if stripPtr(d).Impl() != "" { // pointer to []byte is not in the domain
 				g.o.excluded(g.o.ClassImplLast)
 				*d = leaf(KBytes)
 				return
@@ -542,8 +583,8 @@ func (g *tgen) restrictImpl(top *TypeDesc) {
 		}
 	}
 	if top.K != KStruct {
-		if top.K == KNamed {
-			return // top-level implementer or corpus struct (no implementers inside)
+		if stripPtr(top).K == KNamed {
+			return // top-level implementer or corpus struct (no implementers inside), possibly behind pointers
 		}
 		strip(top)
 		return
@@ -556,7 +597,7 @@ func (g *tgen) restrictImpl(top *TypeDesc) {
 	}
 	for i := range top.Fields {
 		f := &top.Fields[i]
-		if i == len(top.Fields)-1 && !hasRep && (f.T.K == KNamed && f.T.Impl() != "" || f.T.K == KPtr && f.T.Elem.Impl() != "") {
+		if i == len(top.Fields)-1 && !hasRep && stripPtr(&f.T).Impl() != "" {
 			continue
 		}
 		strip(&f.T)
@@ -758,15 +799,12 @@ func (g *vgen) value(d *TypeDesc, depth int, isKey bool) Recipe {
 		switch pick(g.t, "ptr", 25, 15, 60) {
 		case 0:
 			return Recipe{Nil: true}
-		case 1: // pointer to the zero value
-			if d.Elem.K == KPtr {
-				return Recipe{E: []Recipe{{E: []Recipe{g.zero(d.Elem.Elem)}}}}
-			}
-			return Recipe{E: []Recipe{g.zero(d.Elem)}}
+		case 1: // pointer (chain) to the zero value
+			return Recipe{E: []Recipe{g.zeroNonNil(d.Elem)}}
 		default:
 			e := g.value(d.Elem, depth+1, false)
 			if d.Elem.K == KPtr && e.Nil { // &(*T)(nil) has no protobuf meaning: inner pointers are non-nil
-				e = Recipe{E: []Recipe{g.zero(d.Elem.Elem)}}
+				e = g.zeroNonNil(d.Elem)
 			}
 			return Recipe{E: []Recipe{e}}
 		}
@@ -784,7 +822,7 @@ func (g *vgen) value(d *TypeDesc, depth int, isKey bool) Recipe {
 			// nil pointers are not representable as elements of a repeated field
 			for p, e := d.Elem, &r.E[i]; p.K == KPtr; p, e = p.Elem, &e.E[0] {
 				if e.Nil {
-					*e = Recipe{E: []Recipe{g.zero(p.Elem)}}
+					*e = g.zeroNonNil(p)
 				}
 			}
 		}
@@ -841,6 +879,14 @@ func (g *vgen) value(d *TypeDesc, depth int, isKey bool) Recipe {
 		return g.value(n.Under, depth+1, false)
 	}
 	return Recipe{}
+}
+
+// zeroNonNil is zero, except that a pointer chain is non-nil down to its base.
+func (g *vgen) zeroNonNil(d *TypeDesc) Recipe {
+	if d.K == KPtr {
+		return Recipe{E: []Recipe{g.zeroNonNil(d.Elem)}}
+	}
+	return g.zero(d)
 }
 
 // zero is the recipe of the zero value (nil pointers/slices/maps).
